@@ -403,7 +403,10 @@ def check_stripws_simulation(ctx, rid='R10.9'):
         # two names with whitespace between them must keep at least one whitespace character between them
         gone = None
         for a_, b_ in apart:
-            ia, ib = next(i for i, t in enumerate(after) if t is a_), next(i for i, t in enumerate(after) if t is b_)
+            ia = next((i for i, t in enumerate(after) if t is a_), None)
+            ib = next((i for i, t in enumerate(after) if t is b_), None)
+            if ia is None or ib is None:
+                continue            # a token is gone: reported as 'a significant token is lost' below
             if not ''.join(t.value for t in after[ia + 1:ib]):
                 gone = (a_, b_)
         if len(sig) != len(before) or any(a is not b for a, b in zip(sig, before)):
